@@ -11,7 +11,7 @@ import ast
 
 from ..core import astutil as A
 from ..core.errors import AnalysisError
-from . import e8
+from . import e6, e8
 
 OBC = "yastn.tn.mps._mps_obc"
 PAR = "yastn.tn.mps._mps_parent"
@@ -30,6 +30,9 @@ def run(chk):
     chk.trusted_base = ["python ast parser", "exact rational arithmetic sa/core/poly.py"]
     chk.rule("FF1", "the norm factor of every operand reaches the result", floor=18)
     chk.rule("FF2", "sibling agreement: every concrete Heff of the 3-layer family carries self.op.factor; Env_sum sums members", floor=15)
+    chk.rule("FF6", "zipper: with normalize=False every path multiplies the factor by the MPO's factor and no store overwrites it; "
+             "with normalize=True the factor is reset to 1", floor=6)
+    chk.rule("FF7", "a sector charge read from a leg enters charge arithmetic weighted by that leg's signature", floor=2)
     chk.rule("FF3", "phase/modulus split of scalar multiplication: new factor * phase == number * factor", floor=4)
     P = prog.cls(PAR, "_MpsMpoParent")
     O = prog.cls(OBC, "MpsMpoOBC")
@@ -57,12 +60,11 @@ def run(chk):
         ok = (bool(src) or bool(direct_self) or inherits) and not bad
         chk.verdict("FF1", f, f"{f.short}: built on a shallow copy, factor untouched", True if ok else False,
                     f"{f.short}(): the result is not derived from a shallow copy of the operand or overwrites `.factor` independently of it")
-    # zipper: factor of the MPO enters when the norm is tracked
+    # zipper: factor of the MPO enters when the norm is tracked (path-sensitive in `normalize`)
     z = prog.func(COMP, "zipper")
-    stores = [n for n in ast.walk(z.node) if isinstance(n, ast.Assign) and A.text(n.targets[0]) == "psi.factor"]
-    ok = any("a.factor" in A.text(s.value) and "psi.factor" in A.text(s.value) for s in stores)
-    chk.verdict("FF1", (z, stores[0] if stores else z.node), stores[0] if stores else "psi.factor", True if ok else False,
-                "zipper: the factor of the applied MPO `a` does not enter the factor of the result when normalize=False")
+    e8.check_norm_switch(chk, "FF6", z, "psi", must_enter="a.factor")
+    e8.check_norm_switch(chk, "FF6", prog.func(COMP, "_zipper_MpoOBC"), "psi", resets=True)
+    e8.check_norm_switch(chk, "FF6", prog.func(COMP, "_zipper_MpoPBC"), "psi")
     psi_def = [n for n in ast.walk(z.node) if isinstance(n, ast.Assign) and A.text(n.targets[0]) == "psi"]
     chk.verdict("FF1", (z, psi_def[0]), psi_def[0], True if A.text(psi_def[0].value) == "b.shallow_copy()" else False,
                 "zipper: the result is not started from a shallow copy of `b` (its factor and tensors)")
@@ -106,6 +108,8 @@ def run(chk):
         t = A.text(f.node)
         ok = f"env.{name}(" in t and "self.envs" in t
         chk.verdict("FF2", f, f"Env_sum.{name} sums its members", True if ok else False, f"Env_sum.{name}() does not combine all member environments")
+    # ---- FF7 boundary charges of the <bra|op|ket> environment
+    e6.run_CK1(chk, "FF7", [ENV, "yastn.tn.mps._measure", COMP, "yastn.tn.mps._initialize", OBC, PAR], floor_sites=2)
     # ---- FF3
     e8.mul_identity(chk, P.methods["__mul__"])
 
@@ -116,8 +120,12 @@ MUTANTS = [
     ("add ignores factors", "yastn/tn/mps/_mps_obc.py", "    amplitudes = [x * psi.factor for x, psi in zip(amplitudes, states)]", "    amplitudes = [x for x, psi in zip(amplitudes, states)]", "FF1"),
     ("multiply forgets b.factor", "yastn/tn/mps/_mps_obc.py", "    phi.factor = a.factor * b.factor", "    phi.factor = a.factor", "FF1"),
     ("measure without factor", "yastn/tn/mps/_env.py", "        return self.factor() * vdot(vecL, vecR, conj=(0, 0))", "        return vdot(vecL, vecR, conj=(0, 0))", "FF1"),
+    ("zipper guard inverted", "yastn/tn/mps/_compression.py", "    if not normalize:\n        psi.factor = psi.factor * a.factor", "    if normalize:\n        psi.factor = psi.factor * a.factor", "FF6"),
+    ("zipper overwrites factor", "yastn/tn/mps/_compression.py", "        psi.factor = psi.factor * nS\n\n    tmp = tmp.fuse_legs(axes=((0, 1), 2))", "        psi.factor = nS\n\n    tmp = tmp.fuse_legs(axes=((0, 1), 2))", "FF6"),
+    ("boundary charge without signature", "yastn/tn/mps/_env.py", "        n_rt = ket.config.sym.add_charges(legv.t[0], signatures=(legv.s,), new_signature=-1)", "        n_rt = ket.config.sym.add_charges(legv.t[0], new_signature=-1)", "FF7"),
     ("env factor forgets op", "yastn/tn/mps/_env.py", "        return self.bra.factor * self.op.factor * self.ket.factor", "        return self.bra.factor * self.ket.factor", "FF1"),
 ]
 BENIGN = [
+    ("zipper guard as if/else", "yastn/tn/mps/_compression.py", "    if not normalize:\n        psi.factor = psi.factor * a.factor", "    if normalize:\n        pass\n    else:\n        psi.factor = a.factor * psi.factor"),
     ("reorder product", "yastn/tn/mps/_mps_obc.py", "    phi.factor = a.factor * b.factor", "    phi.factor = b.factor * a.factor"),
 ]
